@@ -431,7 +431,7 @@ func c07Classify(c *C07Case, detail string) string {
 		if j := strings.Index(detail, "err(len="); j >= 0 {
 			if _, err := fmt.Sscanf(detail[j:], "err(len=%d,desc=%d)", &l, &d); err == nil && l < len(c.input())+200 && d < len(c.input())+200 {
 				switch c07Entries[c.Entry] {
-				case "NewRaw+LoadAll+Interface", "Loads", "Get(path)+LoadAll", "Unmarshal(ast.Node)+LoadAll", "Get()+SortKeys+MarshalJSON":
+				case "NewRaw+LoadAll+Interface", "Loads", "Get(path)+LoadAll", "Unmarshal(ast.Node)+LoadAll", "Get()+SortKeys+MarshalJSON", "GetFromString()", "GetWithOptions()":
 					return "C07-number-error-quotes-literal"
 				}
 			}
